@@ -78,7 +78,8 @@ var curatedInputs = map[string]map[string]rng2{
 	"VariablePartition":           {"fraction": {0, 1}},
 	"USLEFineSedimentGeneration":  {"dayOfYear": {1, 365}, "KLSC": {0, 1}, "KLSC_Fine": {0, 1}, "CovOrCFact": {0, 1}},
 	"InstreamFineSediment":        {"reachVolume": {1000, 1e6}, "outflow": {0, 60}},
-	"InstreamParticulateNutrient": {"floodplainDepositionFraction": {0, 0.5}, "channelDepositionFraction": {0, 0.5}, "reachVolume": {1000, 1e6}},
+	// channelDepositionFraction < 0: remobilisation from the bed (the bed account may run into deficit)
+	"InstreamParticulateNutrient": {"floodplainDepositionFraction": {0, 0.5}, "channelDepositionFraction": {-0.5, 0.5}, "reachVolume": {1000, 1e6}},
 	"InstreamDissolvedNutrientDecay": {"floodplainDepositionFraction": {0, 0.5}, "reachVolume": {1000, 1e6}},
 	"DynamicSednetGully":          {"year": {1990, 2020}},
 	"DynamicSednetGullyAlt":       {"year": {1990, 2020}},
@@ -218,6 +219,22 @@ func genCase(r *rand.Rand, name string, nSets, nCells, nBlocks, T int) *modelCas
 			}
 		}
 		mc.PVals = append(mc.PVals, pv)
+	}
+	if name == "DateGenerator" && r.Intn(2) == 0 {
+		// half of the draws start in the last days of February of a year on either side of a leap / century rule
+		years := []float64{1899, 1900, 1901, 1996, 1999, 2000, 2001, 2003, 2004, 2005, 2096, 2099, 2100, 2101}
+		for pi, p := range desc.Parameters {
+			for s := 0; s < nSets; s++ {
+				switch p.Name {
+				case "startMonth":
+					mc.PVals[pi][s] = []float64{2}
+				case "startDate":
+					mc.PVals[pi][s] = []float64{float64(24 + r.Intn(5))}
+				case "startYear":
+					mc.PVals[pi][s] = []float64{years[r.Intn(len(years))]}
+				}
+			}
+		}
 	}
 	mc.layout()
 	// inputs
